@@ -166,8 +166,17 @@ def adapt_search(tier, seed):
     repo = os.environ.get("VERIF_REPO", "/repo")
     t0 = time.time()
     env = dict(os.environ)
+    scratch = None
+    if repo != "/repo":
+        from vc import replayer
+        scratch = repo = replayer.scratch_tree()          # overlay trees may be partial: complete package for the helper
     env["PYTHONPATH"] = repo if os.path.exists(os.path.join(repo, "traits", "__init__.py")) else "/repo"
-    p = subprocess.run(["/venv/bin/python", helper, "3" if tier == "quick" else "4", str(seed)], capture_output=True, text=True, env=env)
+    try:
+        p = subprocess.run(["/venv/bin/python", helper, "3" if tier == "quick" else "4", str(seed)], capture_output=True, text=True, env=env)
+    finally:
+        if scratch:
+            import shutil
+            shutil.rmtree(scratch, ignore_errors=True)
     try:
         res = json.loads(p.stdout.strip().splitlines()[-1])
     except Exception:
